@@ -858,8 +858,11 @@ Definition vent_eqb (a b : vent) : bool := (v_id a =? v_id b) && Bool.eqb (v_nor
 (* the shadow stack of one thread: the array, idx, record_idx *)
 Record vth := { v_arr : N -> vent; v_idx : N; v_ridx : N }.
 (* the file-level statics: vfork_parent (0 = none pending), the calling thread, the saved indices and entry *)
-Record vsaved := { s_pid : N; s_thr : N; s_idx : N; s_ridx : N; s_ent : vent }.
-Definition vsaved0 := {| s_pid := 0; s_thr := 0; s_idx := 0; s_ridx := 0; s_ent := {| v_id := 0; v_norec := false |} |}.
+Record vsaved := { s_pid : N; s_thr : N; s_idx : N; s_ridx : N; s_ent : vent; s_ran : bool }.
+(* s_ran (vfork_child_ran, fix after f59e4b7): set by the child's exit hook of vfork (setup_vfork), on shared memory *)
+Definition vsaved0 := {| s_pid := 0; s_thr := 0; s_idx := 0; s_ridx := 0; s_ent := {| v_id := 0; v_norec := false |}; s_ran := false |}.
+Definition vran (sv : vsaved) : vsaved :=
+  {| s_pid := s_pid sv; s_thr := s_thr sv; s_idx := s_idx sv; s_ridx := s_ridx sv; s_ent := s_ent sv; s_ran := true |}.
 
 Definition vpush (t : vth) (e : vent) : vth :=
   {| v_arr := fun i => if i =? v_idx t then e else v_arr t i; v_idx := v_idx t + 1;
@@ -871,10 +874,10 @@ Definition vpop (t : vth) : vth :=
 (* __plthook_entry of vfork: push, then prepare_vfork *)
 Definition vprepare (pid thr : N) (t : vth) (e : vent) : vth * vsaved :=
   let t1 := vpush t e in
-  (t1, {| s_pid := pid; s_thr := thr; s_idx := v_idx t1; s_ridx := v_ridx t1; s_ent := e |}).
+  (t1, {| s_pid := pid; s_thr := thr; s_idx := v_idx t1; s_ridx := v_ridx t1; s_ent := e; s_ran := false |}).
 (* mcount_restore_vfork, called at the start of every hook while a vfork is pending *)
 Definition vrestore (pid thr : N) (t : vth) (sv : vsaved) : vth * vsaved :=
-  if (0 <? s_pid sv) && (thr =? s_thr sv) && (pid =? s_pid sv)
+  if (0 <? s_pid sv) && (thr =? s_thr sv) && (pid =? s_pid sv) && s_ran sv
   then ({| v_arr := fun i => if i =? s_idx sv - 1 then s_ent sv else v_arr t i;
            v_idx := s_idx sv; v_ridx := s_ridx sv |}, vsaved0)
   else (t, sv).
@@ -886,7 +889,7 @@ Definition vrestore_legacy (pid thr : N) (t : vth) (sv : vsaved) : vth * vsaved 
   else (t, sv).
 (* seeded change C11-9: the shadow-stack index taken from the saved RECORD index *)
 Definition vrestore_seeded (pid thr : N) (t : vth) (sv : vsaved) : vth * vsaved :=
-  if (0 <? s_pid sv) && (thr =? s_thr sv) && (pid =? s_pid sv)
+  if (0 <? s_pid sv) && (thr =? s_thr sv) && (pid =? s_pid sv) && s_ran sv
   then ({| v_arr := fun i => if i =? s_ridx sv - 1 then s_ent sv else v_arr t i;
            v_idx := s_ridx sv; v_ridx := s_ridx sv |}, vsaved0)
   else (t, sv).
@@ -905,7 +908,7 @@ Fixpoint vchild (floor : N) (t : vth) (ops : list vop) : option vth :=
 Definition vsection (restore : N -> N -> vth -> vsaved -> vth * vsaved)
                     (pid cpid thr : N) (t : vth) (e : vent) (ops : list vop) : option (vth * vsaved) :=
   let '(t1, sv) := vprepare pid thr t e in
-  let '(t2, sv2) := restore cpid thr (vpop t1) sv in        (* child: exit hook of vfork *)
+  let '(t2, sv2) := restore cpid thr (vpop t1) (vran sv) in (* child: exit hook of vfork (setup_vfork) *)
   match vchild (v_idx t) t2 ops with
   | Some t3 => Some (restore pid thr t3 sv2)
   | None => None
@@ -928,7 +931,7 @@ Definition vs_step (st : N * vth * vsaved) (o : vsop) : N * vth * vsaved :=
   | SPush e => let '(t1, sv1) := vrestore pid 1 t sv in (pid, vpush t1 e, sv1)
   | SPops n => (pid, vpops (N.to_nat n) t, sv)
   | SVfork e => let '(t1, sv1) := vprepare pid 1 t e in (pid, t1, sv1)
-  | SChild => let '(t1, sv1) := vrestore 2 1 t sv in (2, vpop t1, sv1)
+  | SChild => let '(t1, sv1) := vrestore 2 1 t (vran sv) in (2, vpop t1, sv1)
   | SWake => (1, t, sv)
   | SParent => let '(t1, sv1) := vrestore 1 1 t sv in (1, vpop t1, sv1)
   end.
@@ -955,6 +958,32 @@ Fixpoint vok_from (prev : N * N * list bool) (before : option (N * N * list bool
   | _, _ => true
   end.
 Definition vok (c : list vsop * list (N * N * list bool)) : bool := vok_from (0, 0, []) None (fst c) (snd c).
+
+(* ================================================================ Part 1d: the GOT slots of abandoned library calls
+   A hooked library call runs through the PLT hook only while its GOT slot points to the hook.  During the call the
+   dynamic linker may overwrite the slot with the resolved address (first call, lazy binding); the exit hook points
+   it back (update_pltgot).  A call left by longjmp never runs its exit hook: restore_jmpbuf_rstack re-arms the slots
+   of the abandoned entries (mcount_plthook_rearm, fixes 93f2adc and 23390dc).  rstack[i] = Some sym for a library
+   call, None for a traced function; got sym = true when the slot points to the hook. *)
+Record gst := { g_arr : N -> option N; g_idx : N; g_got : N -> bool }.
+Definition g_entry (s : gst) (sym : option N) : gst :=
+  {| g_arr := fun i => if i =? g_idx s then sym else g_arr s i; g_idx := g_idx s + 1;
+     g_got := match sym with Some y => fun x => if x =? y then false else g_got s x | None => g_got s end |}.
+Definition rearm (s : gst) (i : N) (got : N -> bool) : N -> bool :=
+  match g_arr s i with Some y => fun x => if x =? y then true else got x | None => got end.
+Definition g_exit (s : gst) : gst :=
+  {| g_arr := g_arr s; g_idx := g_idx s - 1; g_got := rearm s (g_idx s - 1) (g_got s) |}.
+Fixpoint rearm_range (s : gst) (from : N) (n : nat) (got : N -> bool) : N -> bool :=
+  match n with O => got | S k => rearm_range s (from + 1) k (rearm s from got) end.
+(* the exit hook of longjmp: restore_jmpbuf_rstack(count = idx at setjmp time, the setjmp entry included) walks
+   the entries from `first count` up to idx, then the restored setjmp entry is popped by its own (second) exit *)
+Definition g_longjmp (first : N -> N) (s : gst) (count : N) : gst :=
+  {| g_arr := g_arr s; g_idx := count - 1;
+     g_got := rearm_range s (first count) (N.to_nat (g_idx s - first count)) (g_got s) |}.
+Definition first_fixed (count : N) : N := count - 1.        (* since 23390dc *)
+Definition first_legacy (count : N) : N := count.           (* 93f2adc as found: skips the slot the setjmp entry had *)
+(* every slot that does not point to the hook belongs to a call that is still on the shadow stack *)
+Definition ginv (s : gst) : Prop := forall y, g_got s y = false -> exists i, i < g_idx s /\ g_arr s i = Some y.
 
 (* ================================================================ Part 2: replay side *)
 From Coq Require Import ZArith.
